@@ -42,8 +42,11 @@ SHAPES = {
     'D0': (250, [('data', 'k=', []), ('line', 'OK')]),
     'MD': (250, [('line', 'a=b'), ('data', 'k=', ['l1']), ('line', 'OK')]),
     'MOK': (250, [('line', 'OK'), ('line', 'OK')]),
-    'Ds': (250, [('data', 'k=', ['.x', '.', 'y']), ('line', 'OK')]),
+    'Ds': (250, [('data', 'k=', ['.x', '.', 'y', '...', '.a..b', 'a..b']), ('line', 'OK')]),
     'Dok': (250, [('data', 'k=', ['a', 'OK', 'b']), ('line', 'OK')]),
+    # text that looks dot-stuffed outside a data block is verbatim text
+    'Mdot': (250, [('line', '../rel/path'), ('data', '..blk=', ['..x', 'y']), ('line', '..z'), ('line', 'OK')]),
+    'Edot': (551, [('line', '..first'), ('line', '..second')]),
 }
 SEQ_SHAPES_Q = ['S', 'M1', 'MT', 'D', 'Dx', 'E', 'EM']
 SEQ_SHAPES_T = ['S', 'T', 'M1', 'M2', 'MT', 'D', 'DM', 'Dx', 'E', 'EM']
